@@ -1,9 +1,12 @@
-import Lemmas.NatSortGo
+import Lemmas.NatSortMore
 /-! # C20 — natural string ordering is a consistent total order
 
-Property theorems only (helper lemmas live in `Lemmas/NatSort.lean`, the executable model in `Model/NatSort.lean`).
-`naturalCmp a b ci : Int` is the model of `txt.NaturalCmp` on byte lists; it is run against the Go function on every
-check.  All theorems quantify over all byte lists (bytes as `Nat`; no length bound) and both case modes. -/
+Property theorems only (helper lemmas live in `Lemmas/NatSort*.lean`, the executable models in `Model/NatSort.lean` —
+chunk level, `naturalCmp a b ci : Int` on byte lists — and `Model/NatSortGo.lean` — the index-level, statement-for-statement
+transcription `naturalCmpA` of `txt.NaturalCmp`).  Both are run against the Go function on every check (`cmp` lines and
+even columns of `row` lines: transcription; `less`, `sorta`, `sortd` lines and odd columns: chunk level) and are proved
+equal (`go_transcription_refines`).  All theorems quantify over all byte lists (bytes as `Nat`; no length bound) and
+both case modes. -/
 namespace C20
 open NatSort NatSortGo
 
@@ -416,5 +419,186 @@ example : sortAsc [[98], [97]] = [[97], [98]] := by
   symm; apply sort_spec_asc
   · exact List.Perm.swap _ _ _
   · simp [naturalCmp, ncmp, ncmpLoop, isDigit, fold, cmpNat, ordInt]
+
+
+/-! ## the case-insensitive mode for ALL strings -/
+
+/-- "ASCII letters folded in case-insensitive mode, the case-sensitive order breaking ties", for all byte strings (digit
+    runs, leading zeros, non-ASCII bytes included): the case-insensitive comparison is the case-sensitive comparison of
+    the two upper-cased strings and, only when that is 0, the case-sensitive comparison of the strings themselves -/
+theorem ci_is_fold_then_cs (a b : List Nat) :
+    naturalCmp a b true =
+      (if naturalCmp (foldStr a) (foldStr b) false ≠ 0 then naturalCmp (foldStr a) (foldStr b) false
+       else naturalCmp a b false) := by
+  unfold naturalCmp
+  rw [ncmp_ci_fold a b]
+  cases ncmp (foldStr a) (foldStr b) false <;> simp [ordInt, Ordering.then]
+
+/-- … so the two modes can disagree only on strings that are equal after folding or ordered differently by it; when
+    the folded strings differ the case of the letters has no influence at all -/
+theorem ci_ignores_case (a a' b b' : List Nat) (ha : foldStr a = foldStr a') (hb : foldStr b = foldStr b')
+    (hne : foldStr a ≠ foldStr b) : naturalCmp a b true = naturalCmp a' b' true := by
+  have hz : naturalCmp (foldStr a) (foldStr b) false ≠ 0 := fun h => hne ((cmp_zero_iff _ _ false).mp h)
+  rw [ci_is_fold_then_cs a b, ci_is_fold_then_cs a' b', ← ha, ← hb, if_pos hz, if_pos hz]
+
+/-- `foldStr` is what it says: byte by byte, `a`–`z` to `A`–`Z`, everything else unchanged, same length -/
+theorem foldStr_spec (s : List Nat) :
+    (foldStr s).length = s.length ∧
+      ∀ i (h : i < s.length), (foldStr s)[i]? = some (if 97 ≤ s[i] ∧ s[i] ≤ 122 then s[i] - 32 else s[i]) := by
+  refine ⟨by simp [foldStr], ?_⟩
+  intro i h
+  simp [foldStr, h, (fold_spec s[i]).2]
+
+/-- the chunk key is faithful: different strings have different case-sensitive keys (so `cmp_key` loses nothing) -/
+theorem key_faithful (a b : List Nat) : key false a = key false b ↔ a = b :=
+  ⟨key_injective a b, fun h => by rw [h]⟩
+
+/-! ## the numeric rule at every chunk boundary -/
+
+/-- "digit runs compare by numeric value whatever their length (leading zeros only break ties, fewer zeros first)" at any
+    position that starts a number in both strings (common prefix `p` that does not end in a digit): values of the two
+    maximal digit runs first, then their numbers of leading zeros, then the remainders -/
+theorem digits_numeric_at (p : List Nat) (c1 c2 : Nat) (t1 t2 : List Nat) (ci : Bool)
+    (hp : ∀ c, p.getLast? = some c → isDigit c = false) (h1 : isDigit c1 = true) (h2 : isDigit c2 = true) :
+    ncmp (p ++ c1 :: t1) (p ++ c2 :: t2) ci =
+      ((cmpNat (val (takeDigits (c1 :: t1)).1) (val (takeDigits (c2 :: t2)).1)).then
+        (cmpNat (zc (c1 :: t1)) (zc (c2 :: t2)))).then
+        (ncmp (takeDigits (c1 :: t1)).2 (takeDigits (c2 :: t2)).2 ci) := by
+  rw [ncmp_common_prefix p _ _ ci hp]; exact ncmp_digit_head c1 c2 t1 t2 ci h1 h2
+
+/-- … in particular the smaller VALUE decides, whatever the lengths of the runs, the numbers of leading zeros and
+    whatever follows -/
+theorem digits_value_lt_at (p : List Nat) (c1 c2 : Nat) (t1 t2 : List Nat) (ci : Bool)
+    (hp : ∀ c, p.getLast? = some c → isDigit c = false) (h1 : isDigit c1 = true) (h2 : isDigit c2 = true)
+    (hv : val (takeDigits (c1 :: t1)).1 < val (takeDigits (c2 :: t2)).1) :
+    naturalCmp (p ++ c1 :: t1) (p ++ c2 :: t2) ci = -1 := by
+  unfold naturalCmp
+  rw [digits_numeric_at p c1 c2 t1 t2 ci hp h1 h2, (cmpNat_lt_iff _ _).mpr hv]; rfl
+
+/-! ## the order theorems, stated for the index-level transcription the driver runs on `cmp` lines -/
+
+/-- antisymmetry of the transcription -/
+theorem go_transcription_antisymm (a b : Array Nat) (ci : Bool) : naturalCmpA b a ci = - naturalCmpA a b ci := by
+  rw [go_transcription_arrays, go_transcription_arrays]; exact cmp_antisymm _ _ ci
+
+/-- transitivity of the transcription -/
+theorem go_transcription_trans (a b c : Array Nat) (ci : Bool)
+    (h1 : naturalCmpA a b ci ≤ 0) (h2 : naturalCmpA b c ci ≤ 0) : naturalCmpA a c ci ≤ 0 := by
+  rw [go_transcription_arrays] at *; exact cmp_trans _ _ _ ci h1 h2
+
+/-- the transcription of `NaturalLess` agrees with the chunk-level one (the driver runs the latter on `less` lines) -/
+theorem go_less_agrees (a b : Array Nat) (ci : Bool) : naturalLessA a b ci = naturalLess a.toList b.toList ci := by
+  simp [naturalLessA, naturalLess, go_transcription_arrays]
+
+/-- the transcription never reads outside the strings: replacing the accessors by any others that agree below the
+    lengths does not change the result (so the default value of the driver's `getD` is irrelevant) -/
+theorem go_reads_in_bounds_only (ci : Bool) (l1 l2 : List Nat) (g1 g1' g2 g2' : Nat → Nat)
+    (h1 : Reads g1 l1) (h1' : Reads g1' l1) (h2 : Reads g2 l2) (h2' : Reads g2' l2) :
+    goCmp ci l1.length l2.length g1 g2 = goCmp ci l1.length l2.length g1' g2' := by
+  rw [goCmp_spec ci l1 l2 g1 g2 h1 h2, goCmp_spec ci l1 l2 g1' g2' h1' h2']
+
+/-! ## natural-number arithmetic of the transcription vs `int`/`byte` arithmetic of the code -/
+
+/-- the transcription computes with natural numbers where the Go code computes with `int`: the only subtractions,
+    `len1 := i1 - nz1` and `len2 := i2 - nz2`, never go below zero (the index after the digits is not before the index
+    after the zeros, which is not before the start of the run, and none passes the end of the string), so truncated and
+    exact subtraction agree and every slice `s[nz:i]` is well-formed -/
+theorem go_indices_ordered (n : Nat) (g : Nat → Nat) (i : Nat) (hi : i ≤ n) :
+    i ≤ skipZeros n g i ∧ skipZeros n g i ≤ skipDigits n g (skipZeros n g i) ∧ skipDigits n g (skipZeros n g i) ≤ n :=
+  ⟨skipZeros_ge n g i, skipDigits_ge n g _, skipDigits_le n g _ (skipZeros_le n g i hi)⟩
+
+/-- the byte arithmetic of the folding, `c -= 'a' - 'A'` on a `byte`, never wraps: it is applied to 97..122 only -/
+theorem go_fold_no_wrap (c : Nat) (h : 97 ≤ c ∧ c ≤ 122) : fold true c + 32 = c ∧ fold true c < 256 := by
+  rw [(fold_spec c).2, if_pos h]; omega
+
+/-! ## `NaturalLess` as a strict order -/
+
+theorem less_irrefl (a : List Nat) (ci : Bool) : naturalLess a a ci = false := by
+  have := (cmp_zero_iff a a ci).mpr rfl
+  simp [naturalLess, this]
+
+theorem less_trans (a b c : List Nat) (ci : Bool) (h1 : naturalLess a b ci = true) (h2 : naturalLess b c ci = true) :
+    naturalLess a c ci = true := by
+  simp only [naturalLess, decide_eq_true_eq] at *
+  exact cmp_lt_trans a b c ci h1 h2
+
+/-- `NaturalLess` in the other direction is the negation, except on identical strings -/
+theorem less_flip (a b : List Nat) (ci : Bool) (h : a ≠ b) : naturalLess b a ci = !naturalLess a b ci := by
+  rcases less_trichotomy a b ci with ⟨x, _, y⟩ | ⟨_, e, _⟩ | ⟨x, _, y⟩
+  · rw [x, y]; rfl
+  · exact absurd e h
+  · rw [x, y]; rfl
+
+/-! ## CONTRAST: the three steps of the digit comparison are all needed -/
+
+/-- without the comparison of the significant lengths "10" sorts before "9" -/
+theorem contrast_no_length_check :
+    cmpNumNoLen [49, 48] [57] 0 0 = .lt ∧ val [57] < val [49, 48] ∧ naturalCmp [57] [49, 48] false = -1 := by
+  refine ⟨by simp [cmpNumNoLen, cmpBytes], by simp [val], ?_⟩
+  exact digits_value_lt _ _ _ (by simp [isDigit]) (by simp [isDigit]) (by simp [val])
+
+/-- with the zero counts compared first "2" sorts before "01" although 1 < 2: zeros would not "only break ties" -/
+theorem contrast_zeros_first :
+    cmpNumZerosFirst [50] [49] 0 1 = .lt ∧ val [48, 49] < val [50] ∧ naturalCmp [48, 49] [50] false = -1 := by
+  refine ⟨by simp [cmpNumZerosFirst, cmpNat], by simp [val], ?_⟩
+  exact digits_value_lt _ _ _ (by simp [isDigit]) (by simp [isDigit]) (by simp [val])
+
+/-- without the tie-break on the zero counts "1" and "01" compare equal: 0 for non-identical strings -/
+theorem contrast_no_zero_tiebreak :
+    cmpNumNoZeros [49] [49] = .eq ∧ naturalCmp [49] [48, 49] false = -1 ∧ ([49] : List Nat) ≠ [48, 49] := by
+  refine ⟨by simp [cmpNumNoZeros, cmpBytes], ?_, by simp⟩
+  exact digits_zeros_lt _ _ _ (by simp [isDigit]) (by simp [isDigit]) (by simp [val]) (by simp [zc, dropZeros])
+
+/-- a comparison through a 64-bit accumulator is not even antisymmetric-consistent with the order: it calls
+    "18446744073709551617" (2^64+1) and "1" equal, the real order does not -/
+theorem contrast_word_accumulator :
+    wordVal [49,56,52,52,54,55,52,52,48,55,51,55,48,57,53,53,49,54,49,55] = wordVal [49] ∧
+    naturalCmp [49] [49,56,52,52,54,55,52,52,48,55,51,55,48,57,53,53,49,54,49,55] false = -1 := by
+  constructor
+  · simp [wordVal]
+  · exact (no_word_wrap _ _ _ (by simp [isDigit]) (by simp [isDigit]) (by simp [val])).1
+
+/-! non-vacuity: "aB" vs "Ab" (equal after folding: the case-sensitive order decides), "ab" vs "AC" (it does not) -/
+example : naturalCmp [97, 66] [65, 98] true = 1 := by
+  rw [ci_is_fold_then_cs]
+  simp [foldStr, fold, naturalCmp, ncmp, ncmpLoop, isDigit, cmpNat, ordInt]
+example : naturalCmp [97, 98] [65, 67] true = naturalCmp [65, 66] [97, 99] true :=
+  ci_ignores_case _ _ _ _ (by simp [foldStr, fold]) (by simp [foldStr, fold]) (by simp [foldStr, fold])
+example : naturalCmp ([120] ++ 57 :: [121]) ([120] ++ 48 :: [49, 48]) true = -1 :=
+  digits_value_lt_at _ _ _ _ _ _ (by simp [isDigit]) (by simp [isDigit]) (by simp [isDigit])
+    (by simp [takeDigits, isDigit, val])
+
+
+/-! ## what `slices.SortFunc` asks of its comparison function -/
+
+/-- `slices.SortFunc` "requires that cmp is a strict weak ordering"; both comparison functions handed to it — the
+    ascending `NaturalCmp(a, b, true)` and the descending `NaturalCmp(b, a, true)` — are strict TOTAL orders:
+    irreflexive, transitive, and two strings neither of which is before the other are identical (so incomparability is
+    equality, trivially transitive).  This is the only fact about the comparison the trusted sort needs. -/
+theorem sortfunc_precondition (desc : Bool) :
+    let c := fun a b : List Nat => if desc then naturalCmp b a true else naturalCmp a b true
+    (∀ a, ¬ c a a < 0) ∧ (∀ a b d, c a b < 0 → c b d < 0 → c a d < 0) ∧
+      (∀ a b, ¬ c a b < 0 → ¬ c b a < 0 → a = b) ∧ (∀ a b, c a b = - c b a) := by
+  intro c
+  refine ⟨?_, ?_, ?_, ?_⟩
+  · intro a
+    have := (cmp_zero_iff a a true).mpr rfl
+    cases desc <;> simp [c, this]
+  · intro a b d h1 h2
+    cases desc
+    · simp only [c, Bool.false_eq_true, if_false] at *; exact cmp_lt_trans a b d true h1 h2
+    · simp only [c, if_true] at *; exact cmp_lt_trans d b a true h2 h1
+  · intro a b h1 h2
+    have an := cmp_antisymm a b true
+    cases desc
+    · simp only [c, Bool.false_eq_true, if_false] at *
+      exact (cmp_zero_iff a b true).mp (by omega)
+    · simp only [c, if_true] at *
+      exact (cmp_zero_iff a b true).mp (by omega)
+  · intro a b
+    have an := cmp_antisymm a b true
+    cases desc
+    · simp only [c, Bool.false_eq_true, if_false]; omega
+    · simp only [c, if_true]; omega
 
 end C20
